@@ -34,7 +34,7 @@ REQUIRED_PROBES = {
 
 SIZES = [0, 1, 2, 3, 7, 10, 64, 100, 1000, 1000, 8192, 16384, 20000, 70000, 200000]
 AMTS = [1, 2, 3, 7, 64, 1000, 65536]
-FINISHERS = ["read_all", "read_n_loop", "read1_loop", "read1_none_loop", "stream", "read_chunked", "iter", "readinto_loop", "data"]
+FINISHERS = ["read_all", "read_n_loop", "read1_loop", "read1_none_loop", "stream", "read_chunked", "iter", "readinto_loop", "data", "stream_none", "read_chunked_none", "read_neg"]
 
 
 def gen_response(rng):
@@ -107,10 +107,14 @@ def gen(rng):
     fin = rng.choice(FINISHERS)
     if fin == "read_chunked" and resp["framing"] != "chunked":
         fin = "stream"
-    if resp["framing"] == "chunked" and fin in ("stream", "read_chunked", "iter") and any(o[0] != "read0" for o in prog):
+    if fin == "read_chunked_none" and resp["framing"] != "chunked":
+        fin = "stream_none"
+    if resp["framing"] == "chunked" and fin in ("stream", "read_chunked", "iter", "stream_none", "read_chunked_none") and any(o[0] != "read0" for o in prog):
         prog = [o for o in prog if o[0] == "read0"]
     if fin == "iter" and not decode:
         fin = "stream"
+    if resp["payload"]["size"] > 20000 and fin in ("stream_none", "read_chunked_none") and resp["framing"] == "chunked" and min(resp.get("chunks") or [1]) < 16:
+        fin = "stream"  # (one piece per chunk: keep the number of pieces bounded)
     if fin == "data":
         prog = []
     amt = rng.choice(AMTS)
@@ -266,6 +270,19 @@ def execute(sc, res: Result, w, built, second_request=False):
                 if not p:
                     res.bad("stream_yielded_empty", f"stream({amt})")
                 emit(p, "stream")
+        elif fin == "stream_none":
+            # without an amount: whatever piece sizes the library chooses, non-empty pieces, the same bytes
+            for p in r.stream(None, decode_content=d):
+                if not p:
+                    res.bad("stream_yielded_empty", "stream(None)")
+                emit(p, "stream(None)")
+        elif fin == "read_chunked_none":
+            for p in r.read_chunked(None, decode_content=d):
+                if not p:
+                    res.bad("stream_yielded_empty", "read_chunked(None)")
+                emit(p, "read_chunked(None)")
+        elif fin == "read_neg":
+            emit(r.read(-1, decode_content=d), "read(-1)")  # a negative amount means "everything"
         elif fin == "read_chunked":
             for p in r.read_chunked(amt, decode_content=d):
                 if not p:
@@ -382,6 +399,8 @@ def shrinks(sc):
         c["response"].pop("chunks", None)
         if c["finisher"] == "read_chunked":
             c["finisher"] = "stream"
+        if c["finisher"] == "read_chunked_none":
+            c["finisher"] = "stream_none"
         yield c
     if isinstance(r["coding"], list):
         for x in r["coding"]:
